@@ -124,8 +124,9 @@ theorem C27_range_hypothesis_needed :
   ⟨[T.node (T.leaf [7]) (T.leaf [8]), T.leaf [9]], [7], [(1, T.leaf [8]), (1, T.leaf [9])],
     by decide, by decide, by decide, no_collision_T⟩
 
-/-- byte level, non-vacuity of the 32-step bound: a path with 32 steps does NOT parse back (the loop runs 33 times) -/
-example : parsePath (pathBytes (fun _ : Nat => List.replicate 32 (0 : UInt8)) [7] (List.replicate 32 (1, 0))) = .error .readByte := by
+/-- byte level: the hypotheses of `C27_complete_bytes` are met by a concrete encoding; one step parses back -/
+example : parsePath (pathBytes (fun n : Nat => List.replicate 32 (UInt8.ofNat n)) [7, 8] [(1, 5)]) =
+    .ok ([7, 8], [(1, List.replicate 32 5)]) := by
   rfl
 
 example : merkleLeafPath T.leaf T.node [1] [T.leaf [0], T.leaf [1], T.leaf [2]]
